@@ -242,7 +242,10 @@ func (s *Schema) Source() string {
 			b.WriteString("\n")
 		}
 	}
-	fmt.Fprintf(&b, "service Svc {\n  rpc M(%s) returns (%s);\n}\n", s.Root.FullName(), s.Root.FullName())
+	// the response is a separate tiny message: dynamicgo parses request and response types separately, and a root
+	// message with a huge field number costs 8 bytes per number each time it is parsed
+	b.WriteString("message VpResp {\n  int32 ok = 1;\n}\n\n")
+	fmt.Fprintf(&b, "service Svc {\n  rpc M(%s) returns (VpResp);\n}\n", s.Root.FullName())
 	return b.String()
 }
 
